@@ -2,6 +2,7 @@ from inspect import BoundArguments
 from inspect import Parameter
 from inspect import Signature
 from inspect import iscoroutinefunction
+from inspect import signature
 from itertools import chain
 from types import MethodType
 from typing import Any
@@ -46,7 +47,9 @@ class SignatureAdapter(Signature):
     @signature_cache
     def from_callable(cls, method):
         if hasattr(method, "__signature__"):
-            sig = method.__signature__
+            # for a bound method `__signature__` is the function's: `inspect` leaves out the
+            # parameter the instance is bound to
+            sig = signature(method) if isinstance(method, MethodType) else method.__signature__
             adapter = SignatureAdapter(
                 sig.parameters.values(),
                 return_annotation=sig.return_annotation,
